@@ -57,6 +57,17 @@ def run(ctx):
         ({"A": [("b", "B[]"), ("x", "bool")], "B": [("a", "A[]"), ("c", "C")], "C": [("a", "A[]")]}, "A"),
         ({"Top": [("l", "L"), ("r", "R")], "L": [("z", "Z")], "R": [("z", "Z"), ("t", "Top[]")], "Z": [("v", "int16")]}, "Top"),
         ({"Empty": []}, "Empty"),
+        # one type referenced many times next to another one (more references than type definitions)
+        ({"Order": [("maker", "Party"), ("sell", "Token"), ("buy", "Token"), ("fee", "Token"), ("rebate", "Token")], "Party": [("wallet", "address")],
+          "Token": [("t", "address")]}, "Order"),
+        ({"W": [("a", "X"), ("b", "X"), ("c", "X[]"), ("d", "X[2]"), ("e", "X"), ("f", "Y"), ("g", "X")], "X": [("v", "uint8")], "Y": [("z", "Z")], "Z": [("v", "bool")]}, "W"),
+        # a reference cycle that does not pass through the primary type
+        ({"Ledger": [("root", "Folder")], "Folder": [("files", "File[]")], "File": [("parents", "Folder[]"), ("n", "uint8")]}, "Ledger"),
+        ({"P": [("q", "Q")], "Q": [("r", "R[]")], "R": [("s", "S[]")], "S": [("q", "Q[]"), ("r", "R[]")]}, "P"),
+        # type names one of which extends the other by a character that sorts before "(" ("$") or after it
+        ({"Trade": [("order", "Order"), ("legs", "Order$Leg[]"), ("o_", "Order_"), ("o0", "Order0")], "Order": [("id", "uint256")], "Order$Leg": [("px", "uint64")],
+          "Order_": [("x", "bool")], "Order0": [("y", "bool")]}, "Trade"),
+        ({"T": [("a", "A$"), ("b", "A"), ("c", "A$B")], "A": [("v", "uint8")], "A$": [("v", "uint8")], "A$B": [("v", "uint8")]}, "T"),
         ({"P": [("e", "Empty"), ("e2", "Empty[3]")], "Empty": []}, "P"),
     ]
     for types, primary in shapes:
